@@ -4,12 +4,15 @@ ONLY property theorems, non-vacuity examples and negation witnesses live here; l
 Proofs/Lemmas/Dtd*.lean.  `dtd` is the table generated from tests/dtd/DSP0203_2.3.1.dtd on every run;
 `validTree dtd t` = DTD structure of the tree (`structNode`) ∧ every character is an XML 1.0 Char (`charsOk`).
 -/
-import Proofs.Lemmas.DtdReq4
+import Proofs.Lemmas.DtdWire
 
 namespace C03
 open Pywbem.Model Pywbem.Model.Dtd Pywbem.Model.XmlText Pywbem.Model.Sendable Pywbem.Model.Req Pywbem.Proto
 open Proofs.Dtd Proofs.DtdEnc Proofs.DtdReq
 open Pywbem.Generated (dtd)
+open Pywbem.Model.XmlParse (par wireTree WfTree)
+open Proofs.XmlParse (declStr)
+open Proofs.DtdWire
 
 /-- **The validator's content-model matcher is exact**: for every content model (deterministic or not) and every
     sequence of child names, `matchRe` answers true iff the sequence is in the language of the model. -/
@@ -136,6 +139,80 @@ theorem C03_illegal_char_fails_locally (C : Codec) (m : String) (n : Str) (s : S
     imethodcall C m (.str n) [("QualifierName", .str s)] = .error .valueError := by
   simp [imethodcall, iparamValues, argXml, checked, valueElem, E, charsOk, charsOkList, attrsCharsOk, hs, bind, Except.bind]
 
+/-! ### well-formedness of the document text, by proof (extension round)
+
+`par` (Pywbem/Model/XmlParse.lean) is the executable model of xml_to_tupletree_sax / expat; `Xml.ser` is minidom's
+`toxml()`; `declStr` is the XML declaration line pywbem puts in front of requests and listener responses. -/
+
+/-- **DTD validity of the tree gives well-formedness of the text and validity of what arrives.**  For every tree the
+    validator accepts: it is a `WfTree` (its element and attribute names are declared names of the DTD, hence XML
+    Names; attribute names distinct; XML Chars only), so the parser accepts its serialisation with and without the
+    XML declaration and returns `wireTree t`; and that received tree (attribute values normalised, character data
+    merged and end-of-line normalised, empty character data dropped) is again valid against the DTD. -/
+theorem C03_valid_document_wellformed (t : Xml) (h : validTree dtd t = true) :
+    WfTree t ∧ par (Xml.ser t) = wireTree t ∧ par (declStr ++ Xml.ser t) = wireTree t ∧
+    ∃ t', wireTree t = some t' ∧ validTree dtd t' = true := by
+  have hw := wfTree_of_validTree h
+  simp only [validTree, Bool.and_eq_true] at h
+  obtain ⟨⟨hel, hs⟩, hc⟩ := h
+  cases t with
+  | text s => simp [Xml.isElem] at hel
+  | elem n as ks =>
+    have hp := Proofs.XmlParse.par_ser n as ks hw
+    have hn : Pywbem.Model.XmlParse.isName n = true := by
+      have h' : Pywbem.Model.XmlParse.wfTree (.elem n as ks) = true := hw
+      simp only [Pywbem.Model.XmlParse.wfTree, Bool.and_eq_true] at h'; exact h'.1.1.1
+    have hd := Proofs.XmlParse.par_decl (Proofs.XmlParse.ser_elem_startsTag n as ks hn)
+    obtain ⟨t', ht'⟩ := Proofs.XmlParse.wireTree_isSome (.elem n as ks) hw
+    obtain ⟨w1, w2, w3, _⟩ := wire_valid dtd_ok (.elem n as ks) t' hc ht'
+    refine ⟨hw, hp, hd.trans hp, t', ht', ?_⟩
+    simp only [validTree, Bool.and_eq_true]
+    exact ⟨⟨w3 rfl, w1 hs⟩, w2⟩
+
+/-- **Every request of an intrinsic operation is a well-formed XML document** (same hypotheses as
+    `C03_request_valid`): the body `declStr ++ ser x` is accepted by the parser, and the document the server's
+    parser sees is DTD-valid. -/
+theorem C03_request_wellformed (C : Codec) (dn : Str) (spec : OpSpec) (hmem : spec ∈ Pywbem.Generated.ops) (ns : Arg)
+    (args : List (String × Arg)) (h : Headers) (x : Xml)
+    (hshape : ∀ p ∈ args, argShape p.2 = true)
+    (hctx : ∀ n p, (n, PSrc.item0 p) ∈ spec.params → ∀ l, lookupArg args p = .list l → plainArg (listItem l 0) = true)
+    (hr : runOp C dn spec ns args = .ok (h, x)) :
+    ∃ t', par (declStr ++ Xml.ser x) = some t' ∧ validTree dtd t' = true := by
+  obtain ⟨_, _, h3, t', h4, h5⟩ :=
+    C03_valid_document_wellformed x (C03_request_valid C dn spec hmem ns args h x hshape hctx hr)
+  exact ⟨t', h3.trans h4, h5⟩
+
+/-- the same for InvokeMethod -/
+theorem C03_invoke_wellformed (C : Codec) (K : KeyCodec) (dn : Str) (m obj : Arg) (params : List MParam) (h : Headers)
+    (x : Xml) (hobj : argShape obj = true) (hparams : ∀ p ∈ params, mparamShape p = true)
+    (hr : methodcall C K dn m obj params = .ok (h, x)) :
+    ∃ t', par (declStr ++ Xml.ser x) = some t' ∧ validTree dtd t' = true := by
+  obtain ⟨_, _, h3, t', h4, h5⟩ := C03_valid_document_wellformed x (C03_invoke_valid C K dn m obj params h x hobj hparams hr)
+  exact ⟨t', h3.trans h4, h5⟩
+
+/-- … for ExportIndication -/
+theorem C03_export_wellformed (C : Codec) (a : Arg) (h : Headers) (x : Xml) (hs : argShape a = true)
+    (hr : exportIndication C a = .ok (h, x)) :
+    ∃ t', par (declStr ++ Xml.ser x) = some t' ∧ validTree dtd t' = true := by
+  obtain ⟨_, _, h3, t', h4, h5⟩ := C03_valid_document_wellformed x (C03_export_valid C a h x hs hr).1
+  exact ⟨t', h3.trans h4, h5⟩
+
+/-- … for `tocimxmlstr()` of every sendable CIM object (no declaration there) -/
+theorem C03_encode_wellformed (C : Codec) (o : Obj) (h : sendableObj C o = true) :
+    ∃ t', par (Xml.ser (encObj C o)) = some t' ∧ validTree dtd t' = true := by
+  obtain ⟨_, h2, _, t', h4, h5⟩ := C03_valid_document_wellformed _ (C03_encode_valid_partial C o h)
+  exact ⟨t', h2.trans h4, h5⟩
+
+/-- … and for both listener responses -/
+theorem C03_listener_rsp_wellformed (msgid methodname desc : Str) (code : Nat) (hc : code < 100)
+    (h1 : strOk msgid = true) (h2 : strOk methodname = true) (h3 : strOk desc = true) :
+    (∃ t', par (declStr ++ Xml.ser (listenerSuccess msgid methodname)) = some t' ∧ validTree dtd t' = true) ∧
+    (∃ t', par (declStr ++ Xml.ser (listenerError msgid methodname code desc)) = some t' ∧ validTree dtd t' = true) := by
+  obtain ⟨v1, v2⟩ := C03_listener_rsp_valid msgid methodname desc code hc h1 h2 h3
+  obtain ⟨_, _, a3, t1, a4, a5⟩ := C03_valid_document_wellformed _ v1
+  obtain ⟨_, _, b3, t2, b4, b5⟩ := C03_valid_document_wellformed _ v2
+  exact ⟨⟨t1, a3.trans a4, a5⟩, ⟨t2, b3.trans b4, b5⟩⟩
+
 /-! ### non-vacuity and negation witnesses -/
 
 def toyCodec : Codec :=
@@ -164,6 +241,22 @@ theorem demoInst_sendable : sendableObj toyCodec (.inst demoInst) = true := by
     keybinding, an array property with a NULL entry and markup characters, a qualifier, a reference property -/
 example : validTree dtd (encObj toyCodec (.inst demoInst)) = true :=
   C03_encode_valid_partial toyCodec _ demoInst_sendable
+
+/-- `C03_encode_wellformed` is not vacuous -/
+example : ∃ t', par (Xml.ser (encObj toyCodec (.inst demoInst))) = some t' ∧ validTree dtd t' = true :=
+  C03_encode_wellformed toyCodec _ demoInst_sendable
+
+/-- a listener response whose message id holds a TAB and markup: the text is accepted, the receiver sees a blank
+    instead of the TAB (attribute-value normalisation), and what it sees is still valid -/
+example : par (declStr ++ Xml.ser (listenerSuccess "a\t<&\"b".toList "ExportIndication".toList)) =
+      some (listenerSuccess "a <&\"b".toList "ExportIndication".toList) ∧
+    validTree dtd (listenerSuccess "a <&\"b".toList "ExportIndication".toList) = true := by
+  have hv := (C03_listener_rsp_valid "a\t<&\"b".toList "ExportIndication".toList [] 1 (by decide) (by decide +kernel)
+    (by decide +kernel) rfl).1
+  obtain ⟨_, _, h3, _⟩ := C03_valid_document_wellformed _ hv
+  refine ⟨h3.trans (by rfl), ?_⟩
+  exact (C03_listener_rsp_valid "a <&\"b".toList "ExportIndication".toList [] 1 (by decide) (by decide +kernel)
+    (by decide +kernel) rfl).1
 
 def qdeclAnyFalse : QualDecl :=
   { name := "Q".toList, ty := "string".toList, val := .null, isArray := false, arraySize := none,
